@@ -108,6 +108,11 @@ type vfC14Conn struct {
 
 // vfC14Connect runs one connection over the two stores and observes it.
 func vfC14Connect(cfg vfCfg, cS, sS *vfMemStore, install func(n *vfNet), roundTrip bool) *vfC14Conn {
+	return vfC14ConnectPrep(cfg, cS, sS, install, roundTrip, nil)
+}
+
+// vfC14ConnectPrep: prep sees the pair before the handshake starts (to register a flight script for one side).
+func vfC14ConnectPrep(cfg vfCfg, cS, sS *vfMemStore, install func(n *vfNet), roundTrip bool, prep func(p *vfPair) func()) *vfC14Conn {
 	out := &vfC14Conn{}
 	n := vfNewNet()
 	n.stormCap = 20000
@@ -120,6 +125,11 @@ func vfC14Connect(cfg vfCfg, cS, sS *vfMemStore, install func(n *vfNet), roundTr
 		out.CErr, out.SErr = err, err
 
 		return out
+	}
+	if prep != nil {
+		if undo := prep(p); undo != nil {
+			defer undo()
+		}
 	}
 	out.CErr, out.SErr = p.Handshake(2 * time.Minute)
 	out.CompletedBoth = out.CErr == nil && out.SErr == nil
@@ -468,6 +478,170 @@ func vfC14Run(t *testing.T, res *vfResult, c vfC14Case) {
 	}
 }
 
+// vfC14ForgedFinished: both stores hold the session; on the second connection one side sends its Finished in a
+// correctly protected record but with a verify_data that is not the right twelve bytes (empty, a proper prefix of
+// the right value, one byte longer, last byte flipped). "Each verifies the other's Finished": the other side must
+// not report an established connection.
+func vfC14ForgedFinished(t *testing.T, res *vfResult, cfgName, forger, kind string) {
+	res.Eval(1)
+	id := fmt.Sprintf("forged-finished|%s|by=%s|%s", cfgName, forger, kind)
+	replay := map[string]any{"forged_finished": id}
+	vfInstallFilter()
+	cS, sS := vfNewMemStore("c"), vfNewMemStore("s")
+	cfg := vfC14Cfg(cfgName, "same")
+	if c1 := vfC14Connect(cfg, cS, sS, nil, false); !c1.CompletedBoth {
+		res.Count("first_connection_failed", 1)
+
+		return
+	}
+	script := &vfFlightScript{EditFinished: func(vd []byte) []byte {
+		switch kind {
+		case "empty":
+			return []byte{}
+		case "prefix-4":
+			return vd[:min(4, len(vd))]
+		case "prefix-11":
+			return vd[:min(11, len(vd))]
+		case "one-byte-longer":
+			return append(vd, 0)
+		case "last-byte-flipped":
+			if len(vd) > 0 {
+				vd[len(vd)-1] ^= 1
+			}
+		}
+
+		return vd
+	}}
+	c2 := vfC14ConnectPrep(cfg, cS, sS, nil, false, func(p *vfPair) func() {
+		side, _ := vfSideOf(p, forger)
+		key := side.Conn.handshakeConfig
+		vfScripts.Store(key, script)
+
+		return func() { vfScripts.Delete(key) }
+	})
+	script.mu.Lock()
+	applied := script.applied
+	script.mu.Unlock()
+	resumed := len(c2.OfferedSID) > 0 && bytes.Equal(c2.AnsweredSID, c2.OfferedSID)
+	res.NonTrivial(id)
+	if applied == 0 {
+		res.Count("forged_finished_not_applied", 1)
+
+		return
+	}
+	res.Count("forged_finished_sessions", 1)
+	if resumed {
+		res.Count("forged_finished_on_abbreviated_handshake", 1)
+	}
+	verifierErr, verifier := c2.SErr, "server"
+	if forger == "s" {
+		verifierErr, verifier = c2.CErr, "client"
+	}
+	if kind == "genuine" {
+		if !c2.CompletedBoth {
+			res.Violate("C14:forged-finished:control-failed", fmt.Sprintf("%s: the unmodified Finished was refused: client=%v server=%v", id, c2.CErr, c2.SErr), replay)
+		}
+
+		return
+	}
+	if verifierErr == nil {
+		res.Violate(fmt.Sprintf("C14:finished-not-verified:%s:%s:resumed=%v", verifier, kind, resumed),
+			fmt.Sprintf("%s: the %s reported an established connection although the peer's Finished carried a verify_data that is not the expected value (%s); wire: %v",
+				id, verifier, kind, c2.WireSummary), replay)
+	} else {
+		res.Count("forged_finished_refused", 1)
+	}
+}
+
+// vfC14FatalOnEstablished: a session established by a full handshake and held in both stores; later the victim is
+// made to send a fatal alert on that connection (unprotected application data arrives). From then on the victim's
+// store must not hold the session, whatever version range the victim was configured with.
+func vfC14FatalOnEstablished(t *testing.T, res *vfResult, cfgName, victim string, dual bool) {
+	res.Eval(1)
+	id := fmt.Sprintf("fatal-on-established|%s|victim=%s|dualstack=%v", cfgName, victim, dual)
+	replay := map[string]any{"fatal_on_established": id}
+	cS, sS := vfNewMemStore("c"), vfNewMemStore("s")
+	cfg := vfC14Cfg(cfgName, "same")
+	if dual {
+		// the victim accepts 1.2 and 1.3, its peer only 1.2: DTLS 1.2 is negotiated
+		if victim == "s" {
+			cfg.CVer, cfg.SVer = "12", "dual"
+		} else {
+			cfg.CVer, cfg.SVer = "dual", "12"
+		}
+		cfg.Suite = vfSuiteInfo{Name: "default", Auth: "ecdsa"}
+	}
+	n := vfNewNet()
+	co, so := cfg.Options(cS, sS)
+	p, err := vfNewPair(n, co, so)
+	if err != nil {
+		res.Count("config_rejected", 1)
+
+		return
+	}
+	if ce, se := p.Handshake(2 * time.Minute); ce != nil || se != nil {
+		res.Count("first_connection_failed", 1)
+		res.Seen("first_connection_failures", id+": "+vfErrNorm(ce)+" / "+vfErrNorm(se))
+		p.Close()
+		synctest.Wait()
+
+		return
+	}
+	if vfIs13(p.C.Conn) {
+		res.Count("fatal_on_established_negotiated_13", 1)
+		p.Close()
+		synctest.Wait()
+
+		return
+	}
+	st, _ := p.C.Conn.ConnectionState()
+	sid := append([]byte(nil), st.SessionID...)
+	held := func() bool {
+		if victim == "s" {
+			_, ok := sS.Snapshot()[string(sid)]
+
+			return ok
+		}
+
+		return bytes.Equal(vfC14ClientEntry(cS).ID, sid)
+	}
+	if len(sid) == 0 || !held() {
+		res.Count("fatal_on_established_nothing_stored", 1)
+		p.Close()
+		synctest.Wait()
+
+		return
+	}
+	p.C.StartPump()
+	p.S.StartPump()
+	v, peer := vfSideOf(p, victim)
+	before := len(n.Emissions(v.Name))
+	n.Deliver(string(v.EP.addr), vfLegacyRecord(23, 0xfefd, 0, 77, nil, -1, []byte("unprotected")), peer.EP.addr)
+	time.Sleep(100 * time.Millisecond)
+	synctest.Wait()
+	fatal := false
+	for _, w := range n.Emissions(v.Name)[before:] {
+		if strings.Contains(vfKind(w.Data), "type21") {
+			fatal = true
+		}
+	}
+	res.NonTrivial(id)
+	if !fatal || !v.EP.IsClosed() && v.PumpErr() == nil {
+		res.Count("fatal_on_established_no_fatal_alert_provoked", 1)
+		p.Close()
+		synctest.Wait()
+
+		return
+	}
+	res.Count("fatal_alerts_provoked_on_established_sessions", 1)
+	if held() {
+		res.Violate(fmt.Sprintf("C14:session-still-in-%s-store-after-fatal-alert:established:dualstack=%v", map[string]string{"c": "client", "s": "server"}[victim], dual),
+			fmt.Sprintf("%s: the %s sent a fatal alert on the connection of session %x, yet its store still holds that session", id, v.Name, sid), replay)
+	}
+	p.Close()
+	synctest.Wait()
+}
+
 func vfC14Cases() []vfC14Case {
 	var out []vfC14Case
 	idx := 0
@@ -521,6 +695,29 @@ func TestVF_C14(t *testing.T) {
 	}
 	cases := vfC14Cases()
 	vfBubbles(t, len(cases), func(t *testing.T, i int) { vfC14Run(t, res, cases[i]) })
+	type ff struct{ cfg, forger, kind string }
+	var ffs []ff
+	for _, cfg := range []string{"psk", "ecdsa", "ecdsa-cid", "rsa-verify"} {
+		for _, forger := range []string{"c", "s"} {
+			for _, kind := range []string{"genuine", "empty", "prefix-4", "prefix-11", "one-byte-longer", "last-byte-flipped"} {
+				ffs = append(ffs, ff{cfg, forger, kind})
+			}
+		}
+	}
+	vfBubbles(t, len(ffs), func(t *testing.T, i int) { vfC14ForgedFinished(t, res, ffs[i].cfg, ffs[i].forger, ffs[i].kind) })
+	type fe struct {
+		cfg, victim string
+		dual        bool
+	}
+	var fes []fe
+	for _, cfg := range []string{"ecdsa", "ecdsa-cid", "ecdsa-nohv"} {
+		for _, victim := range []string{"c", "s"} {
+			for _, dual := range []bool{false, true} {
+				fes = append(fes, fe{cfg, victim, dual})
+			}
+		}
+	}
+	vfBubbles(t, len(fes), func(t *testing.T, i int) { vfC14FatalOnEstablished(t, res, fes[i].cfg, fes[i].victim, fes[i].dual) })
 	res.Floor("abbreviated_agreeing", 20)
 	res.Floor("fallback_full", 5)
 	res.Floor("second_connections_judged", int64(len(cases)*8/10))
